@@ -319,15 +319,15 @@ SEEDS = [
     'x:integer; y:string; z = null; print isnull(x) typeof(y) typeof(z);',
     '$v = 1; $v = 2; print $v;',
     'a = 0x1f, b = 1.5e3, c = .5, print a b c;',
-    'print (1 + 2) * -3 ** 2 % 5, print not true or false and null;',
-    'print 1 << 2 | 3 & 4 ^ 5 >> 1, print ~1;',
-    'print "a" == "b", print 1 <= 2.5, print "abc" matches "a.c";',
+    'print (1 + 2) * -3 ** 2 % 5; print not true or false and null;',
+    'print 1 << 2 | 3 & 4 ^ 5 >> 1; print ~1;',
+    'print "a" == "b"; print 1 <= 2.5; print "abc" matches "a.c";',
     'print upper("a") lower("B") trim(" x ") substr("hello", 1, 2) strpos("hello", "l") replace("aXa", "X", "y");',
     'print hex(255, 4) chr(65) hash("abc", 7) b64enc("hi") str(b64dec("aGk=")) int("12") num("1.5") isnum("x");',
     't = tokenize("a,b,,c", ",", true); forall e in t loop put e " "; end loop; print "";',
     'c = 2 + 3 * ii; print imag(c) iphase(c) iconj(c) c * c;',
     'print max(1, 2) min(1.5, 2) floor(1.5) ceil(1.5) round(1.555, 2) abs(-1) sign(-2) pow(2, 3) mod(7, 3) sqrt(4.0) clamp(5, 1, 3);',
-    'do nop; trace false; /* comment */ print "x"; // tail\n# line\nprint "y";',
+    'nop; do 1 + 1; trace false; /* comment */ print "x"; // tail\n# line\nprint "y";',
     'function h() return table is begin return tab(2, "z"); end; print h().at(1) h().count();',
     'function k(t) return tuple is begin return tup(t.count(), "n"); end; print k(tab(3, 0))@1;',
     'a = tab(2, tab(2, 0)); a.at(0).put(1, 5); forall r in a loop forall e in r loop put e; end loop; end loop; print "";',
